@@ -4,6 +4,7 @@ import (
 	"context"
 	"fmt"
 	"math/big"
+	"strings"
 	"sync"
 	"sync/atomic"
 
@@ -70,15 +71,16 @@ type Chan struct {
 type Ledger struct {
 	Clock *Clock
 
-	mu       sync.Mutex
-	accounts map[string]map[uint64]*big.Int // wallet address key -> asset -> balance
-	names    map[string]string              // wallet address key -> party name
-	chans    map[channel.ID]*Chan
-	subs     map[channel.ID]map[*Sub]struct{}
-	latest   map[channel.ID]channel.AdjudicatorEvent
-	calls    []Call
-	problems []Problem
-	totals   map[uint64]*big.Int
+	mu         sync.Mutex
+	accounts   map[string]map[uint64]*big.Int // wallet address key -> asset -> balance
+	names      map[string]string              // wallet address key -> party name
+	chans      map[channel.ID]*Chan
+	subs       map[channel.ID]map[*Sub]struct{}
+	latest     map[channel.ID]channel.AdjudicatorEvent
+	calls      []Call
+	problems   []Problem
+	totals     map[uint64]*big.Int
+	heldOwners []string
 
 	activity atomic.Uint64
 	active   atomic.Int64
@@ -686,24 +688,78 @@ func (v *View) Withdraw(ctx context.Context, req channel.AdjudicatorReq, subStat
 
 // Sub is an adjudicator event subscription with an unbounded queue.
 type Sub struct {
-	l      *Ledger
-	id     channel.ID
-	mu     sync.Mutex
-	queue  []channel.AdjudicatorEvent
-	notify chan struct{}
-	closed bool
+	l         *Ledger
+	id        channel.ID
+	mu        sync.Mutex
+	queue     []channel.AdjudicatorEvent
+	notify    chan struct{}
+	closed    bool
+	waiting   bool // a Next call is in progress
+	owner     string
+	held      bool // events are kept back (slow chain node) until released
+	heldQueue []channel.AdjudicatorEvent
 }
 
+// HoldEvents keeps all events for subscriptions of callers whose name starts
+// with prefix back (a chain node that is slow to report) until ReleaseEvents.
+func (l *Ledger) HoldEvents(prefix string) {
+	l.mu.Lock()
+	defer l.mu.Unlock()
+	l.heldOwners = append(l.heldOwners, prefix)
+	for _, set := range l.subs {
+		for s := range set {
+			if strings.HasPrefix(s.owner, prefix) {
+				s.mu.Lock()
+				s.held = true
+				s.mu.Unlock()
+			}
+		}
+	}
+}
+
+// ReleaseEvents delivers everything kept back by HoldEvents.
+func (l *Ledger) ReleaseEvents() {
+	l.mu.Lock()
+	defer l.mu.Unlock()
+	l.heldOwners = nil
+	for _, set := range l.subs {
+		for s := range set {
+			s.mu.Lock()
+			if s.held {
+				s.held = false
+				if !s.closed && len(s.heldQueue) > 0 {
+					s.queue = append(s.queue, s.heldQueue...)
+					select {
+					case s.notify <- struct{}{}:
+					default:
+					}
+				}
+				s.heldQueue = nil
+			}
+			s.mu.Unlock()
+		}
+	}
+	l.activity.Add(1)
+}
+
+// pending reports whether an event is about to be taken: the queue is not
+// empty and the consumer sits in Next.  A consumer that has stopped reading
+// (it handles an earlier event or is parked on the clock) does not make the
+// ledger busy, however many events pile up behind it.
 func (s *Sub) pending() bool {
 	s.mu.Lock()
 	defer s.mu.Unlock()
-	return len(s.queue) > 0 && !s.closed
+	return len(s.queue) > 0 && !s.closed && s.waiting
 }
 
 func (s *Sub) push(e channel.AdjudicatorEvent) {
 	s.mu.Lock()
 	defer s.mu.Unlock()
 	if s.closed {
+		return
+	}
+	if s.held {
+		s.heldQueue = append(s.heldQueue, e)
 		return
 	}
 	s.queue = append(s.queue, e)
@@ -717,13 +773,16 @@ func (s *Sub) push(e channel.AdjudicatorEvent) {
 func (s *Sub) Next() channel.AdjudicatorEvent {
 	for {
 		s.mu.Lock()
+		s.waiting = true
 		if s.closed {
+			s.waiting = false
 			s.mu.Unlock()
 			return nil
 		}
 		if len(s.queue) > 0 {
 			e := s.queue[0]
 			s.queue = s.queue[1:]
+			s.waiting = false
 			s.mu.Unlock()
 			s.l.activity.Add(1)
 			return e
@@ -768,14 +827,23 @@ func (v *View) Subscribe(_ context.Context, id channel.ID) (channel.AdjudicatorS
 	l := v.L
 	l.mu.Lock()
 	defer l.mu.Unlock()
-	s := &Sub{l: l, id: id, notify: make(chan struct{}, 1)}
+	s := &Sub{l: l, id: id, notify: make(chan struct{}, 1), owner: v.Who}
+	for _, p := range l.heldOwners {
+		if strings.HasPrefix(v.Who, p) {
+			s.held = true
+		}
+	}
 	if l.subs[id] == nil {
 		l.subs[id] = map[*Sub]struct{}{}
 	}
 	l.subs[id][s] = struct{}{}
 	if e, ok := l.latest[id]; ok {
-		s.queue = append(s.queue, e)
-		s.notify <- struct{}{}
+		if s.held {
+			s.heldQueue = append(s.heldQueue, e)
+		} else {
+			s.queue = append(s.queue, e)
+			s.notify <- struct{}{}
+		}
 	}
 	l.activity.Add(1)
 	return s, nil
